@@ -1107,7 +1107,7 @@ def draw_world(rng, sid, k):
 def plan(ctx):
     rng = random.Random("c06-procworld-%d" % ctx.seed)
     scen = corpus_scenarios()
-    for i in range(ctx.n(7, 60)):
+    for i in range(ctx.n(10, 60)):
         scen.append(gen_scenario(rng, rng.choice(ctx.n([7, 9, 11], [8, 11, 14, 18])), "s%03d" % i))
     for sc in scen:
         nw = 2 if sc["id"].startswith("corpus") else ctx.n(1, 3)
@@ -1270,7 +1270,7 @@ def judge_reference(ctx, sc, ref, st):
     return True
 
 
-def shrink(ctx, h, sc, w, sig, budget_s=120.0, max_runs=14):
+def shrink(ctx, h, sc, w, sig, at=None, budget_s=45.0, max_runs=16):
     """greedy removal of steps while the same signature is reproduced (only after a failure)"""
     t0 = time.time()
     steps = list(sc["steps"])
@@ -1299,26 +1299,45 @@ def shrink(ctx, h, sc, w, sig, budget_s=120.0, max_runs=14):
             out.append(s)
         return out
 
-    i = len(steps) - 1
-    while i >= 0 and runs < max_runs and time.time() - t0 < budget_s:
-        cand = remap(steps[:i] + steps[i + 1:], i)
-        i -= 1
-        if cand is None or not cand or not valid(cand):
-            continue
-        sc2 = dict(id="%s-shrink%d" % (sc["id"], runs), steps=cand, base=sc.get("base"))
-        w2 = dict(w, id=sc2["id"] + "/w")
-        run = Runner(os.path.join(h["root"], "shrink"), 2)
-        run.submit(ref_job(run.workdir, sc2, h["timeout"]))
-        run.submit(world_job(run.workdir, sc2, w2, h["timeout"]))
-        run.start()
-        out = run.join()
-        runs += 1
-        ref, res = out.get(sc2["id"] + "/ref"), out.get(w2["id"])
-        if not ref or not res or ref["outcome"] != "ok":
-            continue
-        st2 = dict(mterms=[], mmeta=[])
-        if any(s2 == sig for s2, _, _ in judge(ctx, sc2, w2, ref, res, st2, report=False)):
-            steps = cand
+    os.makedirs(os.path.join(h["root"], "shrink"), exist_ok=True)
+    zs = [Zygote(os.path.join(h["root"], "shrink")) for _ in range(2)]
+    try:
+        i = len(steps) - 1
+        first = at is not None and at + 1 < len(steps)
+        while i >= 0 and runs < max_runs and time.time() - t0 < budget_s:
+            if first:               # everything after the failing call goes at once
+                cand, first, i = steps[:at + 1], False, at
+            else:
+                cand = remap(steps[:i] + steps[i + 1:], i)
+                i -= 1
+            if cand is None or not cand or not valid(cand):
+                continue
+            sc2 = dict(id="%s-shrink%d" % (sc["id"], runs), steps=cand, base=sc.get("base"))
+            w2 = dict(w, id=sc2["id"] + "/w")
+            root = os.path.join(h["root"], "shrink")
+            jobs = [ref_job(root, sc2, h["timeout"]), world_job(root, sc2, w2, h["timeout"])]
+            got = [None, None]
+
+            def ask(k):
+                got[k] = zs[k].request(jobs[k])
+
+            ts = [threading.Thread(target=ask, args=(k,)) for k in range(2)]
+            for t in ts:
+                t.start()
+            for t in ts:
+                t.join()
+            runs += 1
+            ref, res = got
+            if not ref or not res:
+                break
+            if ref["outcome"] != "ok":
+                continue
+            st2 = dict(mterms=[], mmeta=[])
+            if any(s2 == sig for s2, _, _ in judge(ctx, sc2, w2, ref, res, st2, report=False)):
+                steps = cand
+    finally:
+        for z in zs:
+            z.close()
     return steps, runs
 
 
@@ -1376,7 +1395,7 @@ def finish(ctx, h):
                 continue
             found = judge(ctx, sc, w, ref, res, st)
             if found:
-                failures.append((sc, w, found[0][0]))
+                failures.append((sc, w, found[0][0], found[0][2].get("step")))
             else:
                 ctx.bump("procworld_worlds_equal_to_single_process")
             ctx.sample(dict(kind="process-world", world=w, calls=[describe_step(s) for s in sc["steps"]], outcome=res["outcome"],
@@ -1394,12 +1413,12 @@ def finish(ctx, h):
                              ("pw", m["world"]), dict(code=c, replay=m["replay"]))
     # minimise the first failure of each signature (bounded), attach the shortened history to the report
     seen = set()
-    for sc, w, sig in failures:
+    for sc, w, sig, at in failures:
         if sig in seen or len(seen) >= 2:
             continue
         seen.add(sig)
         try:
-            small, runs = shrink(ctx, h, sc, w, sig)
+            small, runs = shrink(ctx, h, sc, w, sig, at)
         except Exception:
             continue
         for f in ctx.failures:
